@@ -66,6 +66,7 @@ type Contract struct {
 	Assumes    []Clause
 	Chooses    []Clause // ghost constants of fresh objects chosen at return (assumed)
 	Checks     []Clause // internal postconditions: proved at every return, not exported to callers
+	CbInvs     []Clause // function literals handed to a callee: holds at the hand-over, kept by every call, holds afterwards
 	Modifies   []*CExpr
 	Lets       []LetSpec
 	Loops      map[int]*LoopSpec
@@ -365,7 +366,7 @@ func parseContractText(lines []string, file string, pkgPath string, voc *Vocab) 
 			cur.BV = rest == "bv"
 		case "note":
 			cur.Notes = append(cur.Notes, rest)
-		case "requires", "ensures", "assume", "choose", "check":
+		case "requires", "ensures", "assume", "choose", "check", "invariant":
 			c, err := parseClause(rest, file, lineNo)
 			if err != nil {
 				return fail(err)
@@ -379,6 +380,8 @@ func parseContractText(lines []string, file string, pkgPath string, voc *Vocab) 
 				cur.Chooses = append(cur.Chooses, c)
 			case "check":
 				cur.Checks = append(cur.Checks, c)
+			case "invariant":
+				cur.CbInvs = append(cur.CbInvs, c)
 			default:
 				cur.Assumes = append(cur.Assumes, c)
 			}
